@@ -130,6 +130,12 @@ def load_findings(prop):
 def _match_value(pat, val):
     if isinstance(pat, list):
         return val in pat
+    if isinstance(pat, dict):
+        if "not" in pat:
+            return val != pat["not"]
+        if "has" in pat:  # '+'-joined cause lists
+            return isinstance(val, str) and pat["has"] in val.split("+")
+        raise ValueError("bad matcher %r" % (pat,))
     return pat == val
 
 
@@ -139,9 +145,10 @@ def match_finding(findings, diff):
     for e in findings:
         if e.get("status") != "known":
             continue
-        m = e["match"]
-        if all(k in diff and _match_value(v, diff[k]) for k, v in m.items()):
-            return e
+        ms = e["match"] if isinstance(e["match"], list) else [e["match"]]
+        for m in ms:
+            if all(k in diff and _match_value(v, diff[k]) for k, v in m.items()):
+                return e
     return None
 
 
